@@ -1521,6 +1521,53 @@ def h_reentry(ctx, cls, name, sets, app):
 
 
 @stoppable
+def h_bmp_boards(ctx):
+    """BMP set_led / set_power with an iterable of boards, given explicitly
+    or by a block: the bit mask names every board, and set_led is sent to
+    (and over the connection of) the FIRST board named."""
+    hosts = BMP_HOSTS[ctx.choose(len(BMP_HOSTS))]
+    b1 = sym(ctx, "board", "first")
+    b2 = sym(ctx, "board", "second")
+    b3 = sym(ctx, "board", "third")
+    ctx.assume(sand(b1 != b2, b1 != b3, b2 != b3))
+    how = ctx.pick(["keyword", "block"])
+    with Env(ctx) as env:
+        bc = env.controller(BMP, None, hosts)
+        mark = len(env.wire)
+        outcome = "ok"
+        try:
+            if how == "keyword":
+                bc.set_led(1, True, board=(b1, b2, b3))
+            else:
+                with bc(board=[b1, b2, b3]):
+                    bc.set_led(1, True)
+        except AssertionError:
+            outcome = "AssertionError"
+        except Exception as e:
+            outcome = type(e).__name__ + ": " + str(e)[:200]
+        sent = env.wire[mark:]
+        ctx.observe(how, outcome, len(sent))
+        v = {"cabinet": 0, "frame": 0, "board": b1}
+        if outcome == "AssertionError":
+            # no connection for that board: nothing may have been sent
+            ctx.witness("no-connection")
+            ctx.prove(not sent, "command-sent-without-connection")
+            prove_all(ctx, bmp_connection_items(None, v, hosts))
+            return
+        if not ctx.prove(outcome == "ok" and len(sent) == 1, "call-failed",
+                         (outcome, len(sent))):
+            return
+        tag, q = sent[0]
+        ctx.witness("sent")
+        prove_all(ctx, [
+            (q.dest_cpu == b1, "command-wrong-board", (q.dest_cpu, b1)),
+            (q.arg2 == ((1 << b1) | (1 << b2) | (1 << b3)),
+             "command-wrong-board-mask", (q.arg2, b1, b2, b3)),
+            (int(q.cmd) == 25, "command-wrong-kind", int(q.cmd)),
+        ] + bmp_connection_items(tag, v, hosts))
+
+
+@stoppable
 def h_update(ctx, cls, name, sets):
     """update_current_context(): changes the innermost context of THAT
     controller only -- the base context when no block is open (then it stays
@@ -1676,6 +1723,8 @@ def units(tier, seed):
             cls, name, ",".join(sets)), h_update,
             dict(cls=cls, name=name, sets=sets),
             witnesses=("sent", "updated")))
+    us.append(Unit("BMP set_led with an iterable of boards", h_bmp_boards, {},
+                   split=3, witnesses=("sent",)))
     us.append(Unit("application blocks", h_application, {}, split=2,
                    witnesses=("application-left", "left-by-exception")))
     if quick:
